@@ -185,3 +185,44 @@ Proof.
   apply forallb_forall. intros t _. apply Nat.leb_le. rewrite count_n_count_occ.
   pose proof (proj1 (NoDup_count_occ N.eq_dec _) Hn t) as H. rewrite !count_occ_app in H. lia.
 Qed.
+
+(* every connection Get hands out is usable and within its idle lifetime (clause 7 of PoolCorr) *)
+Lemma recv_good good buf closed t rest cl :
+  recv good buf closed = (Some t, rest, cl) -> good t = true.
+Proof.
+  revert closed. induction buf as [|x buf IH]; intros closed E; cbn [recv] in E; [discriminate|].
+  destruct (good x) eqn:G; [|exact (IH _ E)]. inversion E; subst. exact G.
+Qed.
+Lemma pstep_hands_out_good cf good s o s' t : pstep cf good s o = (s', RConn t) -> good t = true.
+Proof.
+  destruct o as [k|k t'| |]; cbn [pstep]; intros E.
+  - destruct (p_keys s) as [l|]; [|discriminate].
+    destruct (alookup N.eqb k l) as [buf|]; [|discriminate].
+    destruct (expired cf); [discriminate|].
+    destruct (recv good buf (p_closed s)) as [[[t0|] rest] cl] eqn:R; [|discriminate].
+    inversion E; subst. exact (recv_good _ _ _ _ _ _ R).
+  - destruct (p_keys s) as [l|]; [|discriminate].
+    destruct (alookup N.eqb k l) as [buf|].
+    + destruct (Nat.ltb (length buf) (cap cf)); discriminate.
+    + destruct (Nat.ltb 0 (cap cf)); discriminate.
+  - destruct (p_keys s) as [l|]; [|discriminate]. destruct (stale cf); discriminate.
+  - destruct (p_keys s) as [l|]; discriminate.
+Qed.
+Theorem seq_hands_out_only_good cf good ops : forall s s' rs t,
+  prun cf good s ops = (s', rs) -> In (RConn t) rs -> good t = true.
+Proof.
+  induction ops as [|o ops IH]; intros s s' rs t E Hin; cbn [prun] in E.
+  - inversion E; subst. destruct Hin.
+  - destruct (pstep cf good s o) as [s1 x] eqn:P. destruct (prun cf good s1 ops) as [s2 xs] eqn:R.
+    inversion E; subst. destruct Hin as [Hx|Hin].
+    + subst x. exact (pstep_hands_out_good _ _ _ _ _ _ P).
+    + exact (IH _ _ _ _ R Hin).
+Qed.
+Theorem seq_histories_pass_clause_7 cf bad ops s rs :
+  prun cf (fun t => negb (mem_b N.eqb t bad)) pst0 ops = (s, rs) ->
+  existsb (fun r => match r with RConn t => mem_b N.eqb t bad | _ => false end) rs = false.
+Proof.
+  intros E. destruct (existsb _ rs) eqn:X; [|reflexivity].
+  apply existsb_exists in X. destruct X as [r [Hin Hr]]. destruct r as [|t|]; try discriminate.
+  pose proof (seq_hands_out_only_good _ _ _ _ _ _ _ E Hin) as G. cbn in G. rewrite Hr in G. discriminate.
+Qed.
